@@ -262,6 +262,8 @@ def make_batch(agent, cfg: Dict[str, Any], seed: int, done_mode: str = "mixed", 
     if algo == "RainbowDQN" and cfg.get("per"):
         batch["weights"] = torch.as_tensor(r.uniform(0.2, 1.0, size=(B, 1)).astype(np.float32))
         batch["idxs"] = torch.arange(B).unsqueeze(1)
+    elif algo == "RainbowDQN" and cfg.get("use_n_step"):
+        batch["idxs"] = torch.arange(B)  # ReplayBuffer.sample(return_idx=True)
     return batch
 
 
@@ -418,6 +420,7 @@ def probe_outputs(agent, cfg: Dict[str, Any], probes) -> Dict[str, torch.Tensor]
                     else:
                         out[name] = m(x)
                 else:
+                    seed_all(12345)  # Gumbel-softmax heads sample
                     if base.startswith("actor"):
                         out[name] = m(pobs[ids[i]])
                     else:
@@ -429,6 +432,7 @@ def probe_outputs(agent, cfg: Dict[str, Any], probes) -> Dict[str, torch.Tensor]
             a_t = a_t.unsqueeze(-1)
         for name, m in nets:
             cname = type(m).__name__
+            seed_all(12345)
             if cname == "ContinuousQNetwork":
                 out[name] = m(pobs, a_t)
             elif cname == "StochasticActor":
